@@ -80,6 +80,7 @@ bool ops_module(Ctx &c, Toks const &t, std::string const &rest)
     else if (k == "dt") p->set_integration_timestep(f_of(t[2]));
     else if (k == "smp") p->smp_mode_v = (t[2] == "cvcs") ? colvarproxy::smp_mode_t::cvcs :
                          ((t[2] == "inner") ? colvarproxy::smp_mode_t::inner_loop : colvarproxy::smp_mode_t::none);
+    else if (k == "replicas") { p->replica_id = (int) i_of(t[2]); p->n_replicas = (int) i_of(t[3]); p->comm_dir = t[4]; }   // m.opt replicas <id> <n> <dir>
     else if (k == "threads") p->n_threads = (int) i_of(t[2]);
     else if (k == "perm") { p->perm.clear(); for (size_t i = 2; i < t.size(); i++) p->perm.push_back((int) i_of(t[i])); }
     else if (k == "threadof") { p->thread_of.clear(); for (size_t i = 2; i < t.size(); i++) p->thread_of.push_back((int) i_of(t[i])); }
@@ -298,7 +299,7 @@ int main(int argc, char **argv)
       size_t b = rest.find_first_not_of(" ");
       rest = (b == std::string::npos) ? "" : rest.substr(b);
     }
-    bool ok = ops_c18(c, t) || ops_c15(c, t) || ops_c11(c, t) || ops_bias(c, t) || ops_c13(c, t) || ops_c09(c, t) || ops_c10(c, t) || ops_c16(c, t) || ops_module(c, t, rest);
+    bool ok = ops_c18(c, t) || ops_c15(c, t) || ops_c11(c, t) || ops_bias(c, t) || ops_c13(c, t) || ops_c09(c, t) || ops_c10(c, t) || ops_c16(c, t) || ops_c14(c, t) || ops_module(c, t, rest);
     (void) ok;
     std::cout.flush();
   }
